@@ -924,6 +924,29 @@ pub(crate) mod verif_seam {
                 pairs: pairs.into_iter().collect(),
             })
         }
+        /// The same note through the production `MetadataWorker::handle_server_event` with a
+        /// CLIENT_ROUTES_CHANGE:UPDATE_NODES event listing `pairs`.
+        pub(crate) fn client_routes_event(&mut self, pairs: Vec<(String, Uuid)>) {
+            let (connection_ids, host_ids) = pairs.into_iter().unzip();
+            let event = super::Event::ClientRoutesChange(
+                super::ClientRoutesChangeEvent::UpdateNodes {
+                    connection_ids,
+                    host_ids,
+                },
+            );
+            let (mut updates, _rx) = super::merge_channel::merge_channel();
+            let _ = super::MetadataWorker::handle_server_event(&mut updates, event, &mut self.0);
+        }
+        /// A TOPOLOGY_CHANGE event through the production `MetadataWorker::handle_server_event`.
+        pub(crate) fn topology_event(&mut self) {
+            let event = super::Event::TopologyChange(
+                crate::frame::response::event::TopologyChangeEvent::NewNode(
+                    "127.0.0.9:9042".parse().unwrap(),
+                ),
+            );
+            let (mut updates, _rx) = super::merge_channel::merge_channel();
+            let _ = super::MetadataWorker::handle_server_event(&mut updates, event, &mut self.0);
+        }
         /// What `start_due_fetches` leaves behind once everything owed was started.
         pub(crate) fn drain(&mut self) {
             self.0 = FetchPlan::empty();
